@@ -158,21 +158,21 @@ StepOK ==
     [] a.a = "Switch" -> TRUE
     [] a.a = "Recover" ->
          pre.p \in Taints \/
-         (/\ C05_Durable(pre.op, pre.sc, pre.lastBase, ScanOf(fs', mem'))
+         (/\ C05_Durable(pre.op, pre.sc, pre.lastBase, pre.hw, ScanOf(fs', mem'))
           /\ C05_NoPhantom(pre.op, pre.sc, pre.nw, ScanOf(fs', mem'))
           /\ C05_HW(pre.hw, mem'.hw)
-          /\ C05_NoGhost(Ghostable(pre.op, pre.sc, pre.lastBase, pre.nw), ScanOf(fs', mem'), NewestOf(mem'))
+          /\ C05_NoGhost(Ghostable(pre.op, pre.sc, pre.lastBase, pre.nw, pre.hw), ScanOf(fs', mem'), NewestOf(mem'))
           /\ StateOK1(fs', mem'))
     [] OTHER ->
          Tainted \/
          (/\ P_Op(a, Sc, NewestOf(mem), Last(mem.segs).base, mem.hw, obs', ScanOf(fs', mem'), mem'.hw)
-          /\ C05_NoGhost(Ghostable(a, Sc, Last(mem.segs).base, NewestOf(mem)), ScanOf(fs', mem'), NewestOf(mem'))
+          /\ C05_NoGhost(Ghostable(a, Sc, Last(mem.segs).base, NewestOf(mem), mem.hw), ScanOf(fs', mem'), NewestOf(mem'))
           /\ StateOK1(fs', mem'))
 StepsOK == [][StepOK]_mcvars
 
 \* named single-oracle variants (to see which oracle a model-level defect trips)
 RecoverStep(P) == [][last'.a = "Recover" => P]_mcvars
-Prop_Durable == RecoverStep(C05_Durable(pre.op, pre.sc, pre.lastBase, ScanOf(fs', mem')))
+Prop_Durable == RecoverStep(C05_Durable(pre.op, pre.sc, pre.lastBase, pre.hw, ScanOf(fs', mem')))
 Prop_NoPhantom == RecoverStep(C05_NoPhantom(pre.op, pre.sc, pre.nw, ScanOf(fs', mem')))
 Prop_NewestOK == [][mem'.up => C05_NewestOK(ScanOf(fs', mem'), NewestOf(mem'))]_mcvars
 Prop_NoDup == [][mem'.up => C05_NoDup(ScanOf(fs', mem'))]_mcvars
